@@ -10,8 +10,9 @@
       `Item.fulfil`, the trim/reset of `refreshQueueAndState` IS `Item.requeue`, `SetLiquidityAfterWithdrawal` IS
       `Item.withdraw`, and the amounts one queue visit can decide satisfy the preconditions (`c02_visit_preconditions`):
       promised profit ≥ 0 and exposure + promised profit ≤ current-round liquidity.
-  NOT proved: the lift through the queue plumbing to every reachable state (each queue element visited with fresh
-  state, re-queue only when all exposures are closed). The Go-side monitor evaluates the collateral inequality as the
+  The lift through the queue plumbing to every reachable state (each queue element visited with fresh state,
+  re-queue only when all exposures are closed) is NOT proved in this file; it is proved, under the ghost hypothesis
+  that no backing part has a negative stake, in Properties/C02Reach.lean (`c02_collateral_partial`). The Go-side monitor evaluates the collateral inequality as the
   property states it on every implementation state visited. Excluded input (known finding KF-C02-negative-stake):
   fulfilments with a negative stake (`0 ≤ b` is a hypothesis of `fulfil_IInv`).
 -/
